@@ -127,13 +127,15 @@ theorem C15_accept_characterisation (H : Bytes → Bytes) (hH : ∀ x, 4 ≤ (H 
     exact hd
 
 /-- (regenerated facts) the two comparisons of `DecodeString` that the model mirrors as exact
-(in)equalities are, in the current codec.go, the exact string inequality `encodedPrefix != sidecarPrefix`
-and `!bytes.Equal(checksum, calculatedChecksum)` over the full slices.  A source that compares in any
-other way (case-insensitively, on a shorter slice, …) breaks this obligation, and with it the claim that
+(in)equalities are exact in the current codec.go.  The extractor classifies them by meaning: the prefix test
+is "exact" for `x != sidecarPrefix`, `!(x == sidecarPrefix)` or `!strings.HasPrefix(s, sidecarPrefix)` with
+the constant itself; the checksum test is "exact" for a negated `bytes.Equal` / `bytes.Compare(..) != 0`
+whose operands are sliced at most up to `checksumLen`.  A source that compares in any other way
+(case-insensitively, on a shorter slice, not at all) breaks this obligation, and with it the claim that
 `C15_wrong_prefix_rejected` / `C15_accept_characterisation` speak about the code. -/
 theorem C15_source_comparisons_exact :
-    Pool.Gen.C15.decodeStringPrefixCond = "encodedPrefix != sidecarPrefix" ∧
-    Pool.Gen.C15.decodeStringChecksumCond = "!bytes.Equal(checksum, calculatedChecksum)" := by decide
+    Pool.Gen.C15.decodeStringPrefixCompare = "exact" ∧ Pool.Gen.C15.decodeStringChecksumCompare = "exact" := by
+  decide
 
 /-- A string whose first seven bytes are not exactly the prefix is never accepted. -/
 theorem C15_wrong_prefix_rejected (H : Bytes → Bytes) (hH : ∀ x, 4 ≤ (H x).length) (cfg : Cfg) (s : Bytes)
